@@ -142,6 +142,10 @@ struct Layout {
     /// zip containers spell their entry names non-canonically (`./a/b`, `a//b`, `a/./b`): the
     /// canonical name is the artifact's relative name (fix 2f541c3)
     respell: bool,
+    /// directory containers also hold FIFOs and dangling links named like coverage artifacts
+    /// (`zz_pipe.info`, `zz_dangling.profraw`, a dangling / FIFO `<stem>.gcda` beside a live gcno):
+    /// not files, to be ignored (mutant R15: `is_file()` -> `!is_dir()`)
+    specials: bool,
 }
 
 #[derive(Clone, Debug)]
@@ -152,6 +156,9 @@ struct Case {
     layouts: Vec<Layout>,
     /// also run the `grcov` binary on every layout and compare the lcov reports
     cli: bool,
+    /// CLI runs: `--filter covered` (`Some(true)`, which is also what makes `main` pass
+    /// `ignore_orphan_gcno = true`), `--filter uncovered` (`Some(false)`) or no filter
+    filter: Option<bool>,
 }
 
 fn case_json(c: &Case) -> Value {
@@ -159,13 +166,14 @@ fn case_json(c: &Case) -> Value {
         "ignore_orphan_gcno": c.ignore_orphan,
         "is_llvm": c.llvm,
         "cli": c.cli,
+        "filter": match c.filter { Some(true) => json!("covered"), Some(false) => json!("uncovered"), None => Value::Null },
         "artifacts": c.arts.iter().map(|a| json!({"rel": a.rel, "intent": intent_name(a.intent),
             "content_hex": hex(&a.content), "bytes": a.content.len()})).collect::<Vec<_>>(),
         "layouts": c.layouts.iter().map(|l| json!({
             "containers": l.containers.iter().map(|t| match t { CType::Dir => "dir", CType::ZipStored => "zip-stored", CType::ZipDeflate => "zip-deflate" }).collect::<Vec<_>>(),
             "assign": l.assign,
             "order": l.order.iter().map(|r| match r { ArgRef::C(i) => format!("c{}", i), ArgRef::P(i) => format!("p{}", i) }).collect::<Vec<_>>(),
-            "relative_args": l.relative_args, "dir_entries": l.dir_entries, "zip_seed": l.zip_seed, "respell": l.respell,
+            "relative_args": l.relative_args, "dir_entries": l.dir_entries, "zip_seed": l.zip_seed, "respell": l.respell, "specials": l.specials,
         })).collect::<Vec<_>>(),
     })
 }
@@ -215,6 +223,7 @@ fn case_from_json(v: &Value) -> Case {
             dir_entries: l["dir_entries"].as_bool().unwrap_or(false),
             zip_seed: l["zip_seed"].as_u64().unwrap_or(0),
             respell: l["respell"].as_bool().unwrap_or(false),
+            specials: l["specials"].as_bool().unwrap_or(false),
         })
         .collect();
     Case {
@@ -223,6 +232,7 @@ fn case_from_json(v: &Value) -> Case {
         arts,
         layouts,
         cli: v["cli"].as_bool().unwrap_or(false),
+        filter: match v["filter"].as_str() { Some("covered") => Some(true), Some("uncovered") => Some(false), _ => None },
     }
 }
 
@@ -345,6 +355,9 @@ fn build_layout(root: &Path, case: &Case, lay: &Layout) -> (Vec<String>, Vec<Str
                 for &j in &members {
                     write_file(&d.join(&case.arts[j].rel), &case.arts[j].content);
                 }
+                if lay.specials {
+                    plant_specials(&d, case, &members);
+                }
                 cpaths.push(d);
                 ctokens.push(members.iter().map(|&j| file_token(&case.arts[j].rel, &case.arts[j].content)).collect());
             }
@@ -410,6 +423,47 @@ fn build_layout(root: &Path, case: &Case, lay: &Layout) -> (Vec<String>, Vec<Str
     (paths, req)
 }
 
+fn mkfifo(p: &Path) {
+    let c = std::ffi::CString::new(p.to_str().unwrap()).unwrap();
+    unsafe {
+        libc::mkfifo(c.as_ptr(), 0o644);
+    }
+}
+
+/// FIFOs and dangling links named like coverage artifacts, beside the live ones of a directory
+/// container: `WalkDir` yields them, `is_file()` is false for them, nothing may come of them (and the
+/// run must not block on a FIFO)
+fn plant_specials(d: &Path, case: &Case, members: &[usize]) {
+    let free = |name: &str| !d.join(name).exists() && std::fs::symlink_metadata(d.join(name)).is_err();
+    for name in ["zz_pipe.info", "sub/zz_pipe.xml", "zz_pipe.profraw"] {
+        if free(name) {
+            let _ = std::fs::create_dir_all(d.join(name).parent().unwrap());
+            mkfifo(&d.join(name));
+        }
+    }
+    for name in ["zz_dangling.info", "zz_dangling.profraw", "zz_dangling.profdata", "zz_dangling.xml", "zz_dangling.gcno", "linked-files-map.json"] {
+        if free(name) {
+            let _ = std::os::unix::fs::symlink("nowhere/at/all", d.join(name));
+        }
+    }
+    // a gcda that is not a file beside a LIVE gcno of this container
+    let mut k = 0;
+    for &j in members {
+        let a = &case.arts[j];
+        if a.intent == Intent::Gcno {
+            let g = format!("{}.gcda", a.stem());
+            if free(&g) {
+                if k % 2 == 0 {
+                    let _ = std::os::unix::fs::symlink("nowhere.gcda", d.join(&g));
+                } else {
+                    mkfifo(&d.join(&g));
+                }
+                k += 1;
+            }
+        }
+    }
+}
+
 /// a non-canonical spelling of a clean relative name; `Path::components` gives the same `Normal`s
 fn respell_name(rel: &str, seed: u64) -> String {
     let mut r = Rng::new(seed);
@@ -432,11 +486,20 @@ fn run_layout(root: &Path, case: &Case, lay: &Layout) -> LayoutRun {
     let (sender, receiver) = unbounded();
     let paths2 = paths.clone();
     let (io, llvm) = (case.ignore_orphan, case.llvm);
-    let res = guarded(move || {
-        let m = producer(&tmp_path, &paths2, &sender, io, llvm);
-        drop(sender);
-        m
+    // on a thread of its own: a producer that blocks (a FIFO opened for reading) must not block the check
+    let (dtx, drx) = std::sync::mpsc::channel();
+    std::thread::spawn(move || {
+        let r = guarded(move || {
+            let m = producer(&tmp_path, &paths2, &sender, io, llvm);
+            drop(sender);
+            m
+        });
+        let _ = dtx.send(r);
     });
+    let res = match drx.recv_timeout(std::time::Duration::from_secs(20)) {
+        Ok(r) => r,
+        Err(_) => Err("producer() did not return within 20 s (blocked on an input that is not a file?)".to_string()),
+    };
     let mut items: Vec<(String, String)> = vec![];
     while let Ok(x) = receiver.try_recv() {
         match x {
@@ -679,8 +742,26 @@ fn cli_oracle(dir: &Path, case: &Case) -> Option<OracleFail> {
             inputs.push(Input { name: a.rel.clone(), format: "Info", id: String::new(), bytes: a.content.clone(), parsed });
         }
     }
+    // every LLVM notes file with ALL gcda of its stem (none: zero counts)
+    for a in case.arts.iter().filter(|a| a.intent == Intent::Gcno && llvm_stamp(&a.content)) {
+        let gcdas: Vec<Vec<u8>> = case.arts.iter().filter(|d| d.intent == Intent::Gcda && d.stem() == a.stem()).map(|d| d.content.clone()).collect();
+        if let Ok(parsed) = grcov::Gcno::compute(&a.stem(), a.content.clone(), gcdas, true) {
+            inputs.push(Input { name: a.rel.clone(), format: "Gcno", id: String::new(), bytes: a.content.clone(), parsed });
+        }
+    }
     let refs: Vec<&Input> = inputs.iter().collect();
-    let want = show_map(&aggregate(&refs));
+    let mut agg = aggregate(&refs);
+    // `--filter`: the property's "covered" = some line was executed (and, with more than one function,
+    // one besides `top-level` was); restated here, applied to the merged record of a file
+    let covered = |r: &grcov::CovResult| {
+        r.lines.values().any(|&c| c != 0) && (r.functions.len() <= 1 || r.functions.iter().any(|(n, f)| f.executed && n != "top-level"))
+    };
+    match case.filter {
+        Some(true) => agg.retain(|_, r| covered(r)),
+        Some(false) => agg.retain(|_, r| !covered(r)),
+        None => {}
+    }
+    let want = show_map(&agg);
     let mut first: Option<String> = None;
     for (i, lay) in case.layouts.iter().enumerate() {
         let root = dir.join(format!("cli{}", i));
@@ -689,21 +770,25 @@ fn cli_oracle(dir: &Path, case: &Case) -> Option<OracleFail> {
         if case.llvm {
             extra.push("--llvm".into());
         }
-        // `--filter covered` (= ignore_orphan_gcno) also drops uncovered files from the report, which is
-        // C12's subject: the CLI stream runs without it (it has no gcno, so the flag changes no item)
+        match case.filter {
+            Some(true) => extra.extend(["--filter".to_string(), "covered".to_string()]),
+            Some(false) => extra.extend(["--filter".to_string(), "uncovered".to_string()]),
+            None => {}
+        }
         let out = run_grcov(&RunCfg {
             dir: &std::env::current_dir().unwrap(),
             args: paths,
             threads: [1usize, 2, 8][(lay.zip_seed % 3) as usize],
             perturb: None,
             fault: None,
-            limit: std::time::Duration::from_secs(60),
+            // FIFOs and dangling links may lie in the directories: the run must end all the same
+            limit: std::time::Duration::from_secs(20),
             extra,
         });
         if out.exit != Some(0) {
             return Some(OracleFail {
                 finding: None, class: "cli-exit",
-                what: format!("CLI: layout {}: grcov exited with {:?}: {}", i, out.exit, out.stderr.lines().last().unwrap_or("")),
+                what: format!("CLI: layout {}: grcov exited with {:?} (None = no end within 20 s): {}", i, out.exit, out.stderr.lines().last().unwrap_or("")),
             });
         }
         let got = match decode_lcov_report(&out.stdout) {
@@ -770,13 +855,29 @@ fn gen_cli_case(rng: &mut Rng, cfg: &GenCfg) -> Case {
     if rng.chance(1, 3) {
         arts.push(art("lonely.gcda", b"adcg*204 no notes", Intent::Gcda));
     }
+    // parsable LLVM notes files (the fixtures of /repo/test/llvm), with their gcda or as orphans:
+    // "a gcno without any gcda contributes its lines with zero counts unless only covered files were
+    // requested" is decided in `main` (`--filter` -> `ignore_orphan_gcno`), so it needs the binary
+    let mut fx = vec!["file", "file_branch", "reader"];
+    rng.shuffle(&mut fx);
+    for (i, f) in fx.iter().take(rng.range(1, 3) as usize).enumerate() {
+        if let (Ok(g), Ok(d)) = (std::fs::read(format!("/repo/test/llvm/{}.gcno", f)), std::fs::read(format!("/repo/test/llvm/{}.gcda", f))) {
+            let dir = ["", "obj/", "0/", "sub/deep/"][(rng.below(4) as usize + i) % 4];
+            arts.push(Artifact { rel: format!("{}{}.gcno", dir, f), content: g, intent: Intent::Gcno });
+            if rng.chance(1, 2) {
+                arts.push(Artifact { rel: format!("{}{}.gcda", dir, f), content: d, intent: Intent::Gcda });
+            }
+        }
+    }
+    let filter = *rng.pick(&[None, None, Some(true), Some(false), Some(false)]);
     rng.shuffle(&mut arts);
     let styles = [Style::OneDir, Style::OneZip, Style::Split, Style::MaxPlain];
     let sa = *rng.pick(&styles);
     let sb = *rng.pick(&styles);
     let la = gen_layout(rng, &arts, sa, cfg);
     let lb = gen_layout(rng, &arts, sb, cfg);
-    Case { ignore_orphan: false, llvm: rng.chance(1, 4), arts, layouts: vec![la, lb], cli: true }
+    // main.rs:422 derives `ignore_orphan_gcno` from `--filter covered`: the library run gets the same
+    Case { ignore_orphan: filter == Some(true), llvm: rng.chance(1, 4), arts, layouts: vec![la, lb], cli: true, filter }
 }
 
 // ---------------------------------------------------------------------------------------------
@@ -978,6 +1079,9 @@ fn blob(rng: &mut Rng, prefix: &[u8], n: u64) -> Vec<u8> {
 }
 
 fn gen_gcno(rng: &mut Rng, pools: &Pools, llvm: bool) -> Vec<u8> {
+    if !llvm && rng.chance(1, 14) {
+        return vec![]; // zero bytes: no LLVM stamp; read into a buffer under --llvm
+    }
     if llvm {
         match rng.below(4) {
             0 if !pools.llvm_gcno.is_empty() => {
@@ -1007,6 +1111,10 @@ fn gen_gcno(rng: &mut Rng, pools: &Pools, llvm: bool) -> Vec<u8> {
 }
 
 fn gen_gcda(rng: &mut Rng, pools: &Pools) -> Vec<u8> {
+    if rng.chance(1, 10) {
+        // a zero-byte gcda (process killed before the counters were flushed; mutant R16)
+        return vec![];
+    }
     if rng.chance(1, 4) && !pools.gcda.is_empty() {
         let mut b = rng.pick(&pools.gcda).clone();
         b.extend_from_slice(&rng.next().to_le_bytes());
@@ -1200,7 +1308,8 @@ fn gen_artifacts(rng: &mut Rng, pools: &Pools, llvm_opt: bool, rep: &mut Report)
         }
         if rng.chance(1, 6) {
             for _ in 0..rng.range(1, 3) {
-                add(format!("{}default{}.profraw", rng.pick(DIRS), rng.below(3)), blob(rng, b"\x81rforpl\xff", 12), Intent::Profraw);
+                let body = if rng.chance(1, 6) { vec![] } else { blob(rng, b"\x81rforpl\xff", 12) };
+                add(format!("{}default{}.profraw", rng.pick(DIRS), rng.below(3)), body, Intent::Profraw);
             }
         }
         if rng.chance(1, 10) {
@@ -1322,6 +1431,7 @@ fn gen_layout(rng: &mut Rng, arts: &[Artifact], style: Style, cfg: &GenCfg) -> L
         dir_entries: rng.chance(1, 3),
         zip_seed: rng.next(),
         respell: rng.chance(1, 3),
+        specials: rng.chance(1, 3),
     }
 }
 
@@ -1367,7 +1477,7 @@ fn gen_case(rng: &mut Rng, pools: &Pools, cfg: &GenCfg, rep: &mut Report) -> Cas
         rng.shuffle(&mut lb.order);
         lb.order.reverse();
     }
-    Case { ignore_orphan, llvm, arts, layouts: vec![la, lb], cli: false }
+    Case { ignore_orphan, llvm, arts, layouts: vec![la, lb], cli: false, filter: None }
 }
 
 // ---------------------------------------------------------------------------------------------
@@ -1377,7 +1487,7 @@ fn art(rel: &str, content: &[u8], intent: Intent) -> Artifact {
     Artifact { rel: rel.to_string(), content: content.to_vec(), intent }
 }
 fn simple_layout(containers: Vec<CType>, assign: Vec<i64>, order: Vec<ArgRef>) -> Layout {
-    Layout { containers, assign, order, relative_args: false, dir_entries: false, zip_seed: 1, respell: false }
+    Layout { containers, assign, order, relative_args: false, dir_entries: false, zip_seed: 1, respell: false, specials: false }
 }
 
 fn witnesses() -> Vec<(&'static str, Case)> {
@@ -1393,6 +1503,7 @@ fn witnesses() -> Vec<(&'static str, Case)> {
             ignore_orphan: false,
             llvm: false,
             cli: false,
+            filter: None,
             arts: vec![art("jacoco.xml", &short, Intent::Xml)],
             layouts: vec![
                 simple_layout(vec![CType::Dir], vec![0], vec![ArgRef::C(0)]),
@@ -1406,6 +1517,7 @@ fn witnesses() -> Vec<(&'static str, Case)> {
             ignore_orphan: false,
             llvm: false,
             cli: true,
+            filter: None,
             arts: vec![art("jacoco.xml", &short, Intent::Xml), art("r.info", info, Intent::Info)],
             layouts: vec![
                 simple_layout(vec![CType::Dir], vec![0, 0], vec![ArgRef::C(0)]),
@@ -1419,6 +1531,7 @@ fn witnesses() -> Vec<(&'static str, Case)> {
             ignore_orphan: false,
             llvm: false,
             cli: false,
+            filter: None,
             arts: vec![art("jacoco.xml", &gen_xml_badutf8(&mut rng), Intent::Xml), art("r.info", info, Intent::Info)],
             layouts: vec![
                 simple_layout(vec![CType::Dir], vec![0, 0], vec![ArgRef::C(0)]),
@@ -1433,6 +1546,7 @@ fn witnesses() -> Vec<(&'static str, Case)> {
             ignore_orphan: false,
             llvm: false,
             cli: false,
+            filter: None,
             arts: vec![
                 art("sub/a.gcno", b"oncg*22B build one", Intent::Gcno),
                 art("sub/a.gcno", b"oncg*22B build two", Intent::Gcno),
@@ -1452,6 +1566,7 @@ fn witnesses() -> Vec<(&'static str, Case)> {
             ignore_orphan: false,
             llvm: false,
             cli: false,
+            filter: None,
             arts: vec![
                 art("r.info", info, Intent::Info),
                 art("linked-files-map.json", b"{\"a\":\"one\"}", Intent::Map),
@@ -1471,6 +1586,7 @@ fn witnesses() -> Vec<(&'static str, Case)> {
             ignore_orphan: false,
             llvm: false,
             cli: false,
+            filter: None,
             arts: vec![
                 art(".libs/a.gcno", b"oncg*22B hidden notes", Intent::Gcno),
                 art(".libs/a.gcda", b"adcg*22B hidden run", Intent::Gcda),
@@ -1493,6 +1609,7 @@ fn witnesses() -> Vec<(&'static str, Case)> {
             ignore_orphan: true,
             llvm: false,
             cli: false,
+            filter: None,
             arts: vec![
                 art("lib/m.gcno", b"oncg*204 llvm notes", Intent::Gcno),
                 art("lib/n.gcno", b"oncg*22B gcc notes", Intent::Gcno),
@@ -1534,6 +1651,8 @@ enum FsKind {
 const ARG_NAMES: &[&str] = &[
     "x.zip", "x.ZIP", "x.Zip", "x.jar", "x.info", "x.INFO", "x.xml", "x.json", "x.profraw", "x.profdata", "x.txt",
     "README", ".info", ".zip", "d", "d.zip", "d.info", "a.zip.bak", "x.zip.info", "x.info.zip", "linked-files-map.json",
+    // ending in `zip` without the dot (mutant R31: `".zip"` -> `"zip"`)
+    "zip", "unzip", "nightly-unzip", "azip", "x.zipp", "x.gzip", "x.infozip",
 ];
 
 /// what the argument must lead to, given the model's class and what is really there
@@ -1767,6 +1886,10 @@ pub fn run(rep: &mut Report) {
     let nc = rep.budget(30, 6);
     for _ in 0..nc {
         let case = gen_cli_case(&mut rng, &main_cfg);
+        rep.count(&format!("cli.filter.{}", match case.filter { Some(true) => "covered", Some(false) => "uncovered", None => "none" }));
+        let orphans = case.arts.iter().filter(|a| a.intent == Intent::Gcno && !case.arts.iter().any(|d| d.intent == Intent::Gcda && d.stem() == a.stem())).count();
+        rep.count_n("cli.orphan_llvm_gcno", orphans as u64);
+        rep.count_n("cli.llvm_gcno_with_gcda", (case.arts.iter().filter(|a| a.intent == Intent::Gcno).count() - orphans) as u64);
         process(rep, &mut pend, case, idx, "cli");
         idx += 1;
     }
